@@ -41,7 +41,12 @@ type Sys struct {
 	pendSeg   uint64
 	pendSkip  bool
 	AsyncErrs int
+	stop      chan struct{}
+	iw        *index.Writer
 }
+
+// Stop ends the harness-owned analysis workers.
+func (s *Sys) Stop() { close(s.stop) }
 
 var (
 	curSysMu sync.Mutex
@@ -49,14 +54,36 @@ var (
 )
 
 func init() {
+	// ice v2 creates its global zstd coder (with channels) on first use; make
+	// that happen outside any synctest bubble
+	if c, err := ice2.ZSTDCompress(nil, []byte("warm up"), ice2.ZSTDCompressionLevel); err == nil {
+		_, _ = ice2.ZSTDDecompress(nil, c)
+	}
 	index.VerifHook = func(ev string, w *index.Writer, args ...interface{}) {
 		curSysMu.Lock()
 		s := curSys
 		curSysMu.Unlock()
 		if s != nil {
-			s.hook(ev, args...)
+			// only the first writer opened by this system is traced (a second
+			// writer on the same directory is a different object)
+			s.mu.Lock()
+			if s.iw == nil {
+				s.iw = w
+			}
+			mine := s.iw == w
+			s.mu.Unlock()
+			if mine {
+				s.hook(ev, args...)
+			}
 		}
 	}
+}
+
+// ClearSys detaches the hook from the last system.
+func ClearSys() {
+	curSysMu.Lock()
+	curSys = nil
+	curSysMu.Unlock()
 }
 
 func mergeOptions(mode string) mergeplan.Options {
@@ -115,6 +142,23 @@ func NewSys(c *Ctl, o Opts) *Sys {
 	}
 	if o.Merge != "" && o.Merge != "default" {
 		ic.MergePlanOptions = mergeOptions(o.Merge)
+	}
+	// analysis workers owned by the harness, so that a failed OpenWriter does
+	// not leave goroutines behind in the bubble
+	ic.NumAnalysisWorkers = 0
+	s.stop = make(chan struct{})
+	for i := 0; i < 2; i++ {
+		ch := ic.AnalysisChan
+		go func() {
+			for {
+				select {
+				case <-s.stop:
+					return
+				case w := <-ch:
+					w()
+				}
+			}
+		}()
 	}
 	ic.EventCallback = s.onEvent
 	ic.AsyncError = func(err error) {
@@ -300,7 +344,7 @@ func (s *Sys) DoBatch(proc string, uid int, ops []Op, withCallback bool) error {
 	s.mu.Unlock()
 	s.C.LogP(proc, "Invoke", "c", proc, "uid", uid, "del", dels, "add", adds, "cb", withCallback)
 	err := s.W.Batch(b)
-	s.C.LogP(proc, "Return", "c", proc, "uid", uid, "err", errStr(err))
+	s.C.LogP(proc, "Return", "c", proc, "uid", uid, "err", errStr(err), "safe", !s.O.Unsafe)
 	return err
 }
 
